@@ -15,7 +15,8 @@ obligation of this check.
 from . import c01
 
 
-def run(ctx):
+def run(ctx, only=None):
+    """only: restrict to the classes whose key contains one of these names (dependency phase of C06)"""
     it = ctx.build()
     c01.setup_codec(ctx, it)
     c01.install_replayer(ctx, std=True)
@@ -23,9 +24,9 @@ def run(ctx):
     it.hooks['_fold_lemmas'] = it.hooks['_fold_lemmas'] + std
     import os
     keys = c01.LEAF + c01.COMPOSITE
-    only = os.environ.get('PYVC_ONLY')
+    only = only or ([os.environ['PYVC_ONLY']] if os.environ.get('PYVC_ONLY') else None)
     if only:
-        keys = [k for k in keys if only in k]
+        keys = [k for k in keys if any(o in k for o in only)]
     c01.run_codec(ctx, it, keys, with_std=True)
     if not only:
         c01.lemma_premises(ctx, it, it.hooks['_fold_lemmas'])
